@@ -60,3 +60,25 @@ prop("C16", level="other",
                 "array post-processing explode (measured > 15 min, > 16 GB); masks, core results, data and probe positions are symbolic",
      trusted_base=["the mock's recording code in kani/verif_lib__c16.rs", "T = f64 instantiation of the generic default methods"],
      )
+
+from . import tierc  # noqa: E402
+
+FFT_TRUST = ["L-f32div: (a as f32 / b as f32).ceil()/.floor() as usize is exact for a, b < 2^24 (external_body in the Verus file; paper proof in DESIGN.md 2.4)",
+             "num_integer::gcd divides both arguments and is >= 1 (external_body)",
+             "Tier C extraction keeps the usize control statements verbatim and drops sample-storage statements (vlib/tierc.py docstring)"]
+
+prop("C04", level="other", stages=[tierc.stage_for("C04")], trusted_base=FFT_TRUST,
+     technique="Verus on extracted integer control slices (FFT adapters); Tier B VC generation + Z3 (asynchronous resamplers)",
+     explanation="advertised frame counts are true bounds and exact reports")
+prop("C07", level="other", stages=[tierc.stage_for("C07")], trusted_base=FFT_TRUST,
+     technique="Verus ghost frame totals on extracted integer slices (FFT adapters); Tier B carried-position bounds + Z3 (asynchronous)",
+     explanation="frame accounting without drift")
+prop("C03", level="other", stages=[tierc.stage_for("C03")], trusted_base=FFT_TRUST,
+     technique="Verus overflow/range obligations on extracted slices; Tier B index-range VCs + Z3; Kani/CBMC safety checks on the compiled crate",
+     explanation="no UB / OOB / panic on valid histories")
+prop("C10", level="other", stages=[tierc.stage_for("C10")], trusted_base=FFT_TRUST,
+     technique="Verus reset-vs-constructor postconditions (FFT); expression identity + Z3 (asynchronous); Kani bounded buffer zeroing",
+     explanation="reset() returns to the freshly constructed state")
+prop("C14", level="other", stages=[tierc.stage_for("C14")], trusted_base=FFT_TRUST,
+     technique="Verus (FFT half-block delay) + Tier B first-frame instant (polynomial resamplers)",
+     explanation="output_delay() is the true alignment delay (structural form)")
